@@ -12,22 +12,16 @@ namespace Sdb.Rec
 structure PInv (r : R) : Prop where
   w : WInv r
   x : XL r.v []
-  lwz : r.progressLW = 0 ↔ r.items = []
-  lwle : ∀ it ∈ r.items, r.progressLW ≤ it.origRev
-  lwsync : r.refreshedAt = r.tableRev → r.progressLW = r.lowWatermark
+  lw : r.progressLW = r.lowWatermark
   itle : ItLe r
 
 theorem PInv.init (c : Cfg) : PInv { cfg := c } := by
   refine ⟨WInv.init c, ⟨fun it hit => (by cases hit), ⟨fun o ho => (by cases ho), fun d hd => (by cases hd), fun o ho => (by cases ho), fun h => absurd h (Nat.lt_irrefl 0)⟩,
-    ⟨Nat.le_refl _, fun o ho => (by cases ho), fun d hd => (by cases hd)⟩, XRes.nil⟩, by simp, fun it hit => (by cases hit), fun _ => rfl,
+    ⟨Nat.le_refl _, fun o ho => (by cases ho), fun d hd => (by cases hd)⟩, XRes.nil⟩, rfl,
     ⟨Nat.le_refl _, Nat.le_refl _⟩⟩
 
 theorem PInv.userPut {r : R} (h : PInv r) (id data : Nat) : PInv (r.userPut id data) := by
-  refine ⟨h.w.userPut id data, h.x.userPut h.w.rinv.inv.tinv id data, h.lwz, h.lwle, fun hs => ?_, h.itle⟩
-  have := h.w.rinv.inv.tinv.ref_le
-  have e1 : (r.userPut id data).refreshedAt = r.refreshedAt := rfl
-  have e2 : (r.userPut id data).tableRev = r.tableRev + 1 := rfl
-  omega
+  exact ⟨h.w.userPut id data, h.x.userPut h.w.rinv.inv.tinv id data, h.lw, h.itle⟩
 
 theorem PInv.delObj {r : R} (h : PInv r) (id : Nat) : PInv (r.delObj id) := by
   have hw := h.w.delObj id
@@ -36,10 +30,7 @@ theorem PInv.delObj {r : R} (h : PInv r) (id : Nat) : PInv (r.delObj id) := by
   | none => rw [delObj_of_none hg]; exact h
   | some o =>
     rw [delObj_of_get hg] at hw hx ⊢
-    refine ⟨hw, hx, h.lwz, h.lwle, fun hs => ?_, h.itle⟩
-    have := h.w.rinv.inv.tinv.ref_le
-    simp only at hs
-    omega
+    exact ⟨hw, hx, h.lw, h.itle⟩
 
 theorem PInv.touch {r : R} (h : PInv r) (id : Nat) (hne : ∀ o, r.get id = some o → o.kind ≠ .error) : PInv (r.touch id) := by
   have hw := h.w.touch id hne
@@ -50,16 +41,13 @@ theorem PInv.touch {r : R} (h : PInv r) (id : Nat) (hne : ∀ o, r.get id = some
   | some o =>
     rw [hg] at hw hx
     simp only at hw hx ⊢
-    refine ⟨hw, hx, h.lwz, h.lwle, fun hs => ?_, h.itle⟩
-    have := h.w.rinv.inv.tinv.ref_le
-    simp only [setObj_refreshedAt, setObj_tableRev] at hs
-    omega
+    exact ⟨hw, hx, h.lw, h.itle⟩
 
 theorem PInv.setFailing {r : R} (h : PInv r) (l : List Nat) : PInv { r with failing := l } :=
-  ⟨h.w.setFailing l, h.x, h.lwz, h.lwle, h.lwsync, h.itle⟩
+  ⟨h.w.setFailing l, h.x, h.lw, h.itle⟩
 
 theorem PInv.setNow {r : R} (h : PInv r) (t : Nat) (ht : r.now ≤ t) : PInv { r with now := t } :=
-  ⟨h.w.setNow t ht, h.x.setNow t ht, h.lwz, h.lwle, h.lwsync, h.itle⟩
+  ⟨h.w.setNow t ht, h.x.setNow t ht, h.lw, h.itle⟩
 
 theorem fireTimer_frame2 (r : R) : r.fireTimer.items = r.items ∧ r.fireTimer.progressLW = r.progressLW ∧
     r.fireTimer.refreshedAt = r.refreshedAt ∧ r.fireTimer.tableRev = r.tableRev ∧ r.fireTimer.progressRev = r.progressRev ∧
@@ -71,14 +59,13 @@ theorem fireTimer_frame2 (r : R) : r.fireTimer.items = r.items ∧ r.fireTimer.p
 
 theorem PInv.fireTimer {r : R} (h : PInv r) : PInv r.fireTimer := by
   obtain ⟨e1, e2, e3, e4, e5, _, e7, e8⟩ := fireTimer_frame2 r
-  refine ⟨h.w.fireTimer, by rw [fireTimer_v]; exact h.x, by rw [e1, e2]; exact h.lwz, by rw [e1, e2]; exact h.lwle, ?_, ?_⟩
-  · rw [e2, e3, e4, lowWatermark_eq, e1, ← lowWatermark_eq]; exact h.lwsync
+  refine ⟨h.w.fireTimer, by rw [fireTimer_v]; exact h.x, ?_, ?_⟩
+  · rw [e2, lowWatermark_eq, e1, ← lowWatermark_eq]; exact h.lw
   · unfold ItLe; rw [e5, e7, e8]; exact h.itle
 
 theorem PInv.round {r : R} (h : PInv r) : PInv r.round := by
-  obtain ⟨a, b, c⟩ := round_lw h.w.rinv h.x h.itle
   obtain ⟨d, e⟩ := h.x.round h.w.rinv h.itle
-  exact ⟨h.w.round, d, a, b, c, e⟩
+  exact ⟨h.w.round, d, round_lw h.w.rinv h.x h.itle, e⟩
 
 theorem PInv.quiesce {r : R} (h : PInv r) (fuel : Nat) : PInv (r.quiesce fuel) := by
   induction fuel generalizing r with
